@@ -133,6 +133,17 @@ fn handle(db: &anything::Db, line: &str) -> Value {
             spec.show_continuation = true;
             json!({ "text": r.display(&spec).to_string() })
         }
+        // DJ <hex json> <limit> <exponent limit>: a Rational as serde reads it from JSON (numerator and denominator exactly as
+        // stored: not reduced, the denominator may be negative), displayed
+        "DJ" => {
+            let (Some(j), Some(l), Some(e)) = (args.first().and_then(|a| unhex(a)), args.get(1), args.get(2)) else { return json!({"bad": 1}) };
+            let r: Rational = match serde_json::from_str(&j) { Ok(r) => r, Err(e) => return json!({"decode_error": e.to_string()}) };
+            let mut spec = anything::rational::DisplaySpec::default();
+            spec.limit = l.parse().unwrap_or(6);
+            spec.exponent_limit = e.parse().unwrap_or(8);
+            spec.show_continuation = true;
+            json!({ "text": r.display(&spec).to_string() })
+        }
         // U <hex>: str::parse::<Compound>
         "U" => {
             let Some(src) = args.first().and_then(|a| unhex(a)) else { return json!({"bad": 1}) };
